@@ -55,8 +55,8 @@ abbrev ProtoRow := (Int × Int) × (Ty × Bool × Ty × Bool)
     encodings) -/
 def rowCompat (r : ProtoRow) (dir : Dir) : Bool :=
   match dir with
-  | .req => !r.2.2.1 && (match (lookupLayout r.1.1 r.1.2).1 with | some l => compat l r.2.1 | none => false)
-  | .resp => !r.2.2.2.2 && (match (lookupLayout r.1.1 r.1.2).2 with | some l => compat l r.2.2.2.1 | none => false)
+  | .req => !r.2.2.1 && (match (lookupLayout r.1.1 r.1.2).1 with | some l => compat l r.2.1 && !l.hasUnsupported | none => false)
+  | .resp => !r.2.2.2.2 && (match (lookupLayout r.1.1 r.1.2).2 with | some l => compat l r.2.2.2.1 && !l.hasUnsupported | none => false)
 
 /-- the (api, version, direction) triples of the reference whose selected layout is *not*
     wire-equivalent: Produce requests (one partition per topic assumed; message sets before v3),
